@@ -8,9 +8,12 @@ import (
 	"encoding/json"
 	"errors"
 	"io"
+	"strings"
+	"unicode/utf8"
 
 	"github.com/pulumi/esc"
 	"github.com/pulumi/esc/eval"
+	"gopkg.in/yaml.v3"
 )
 
 // c11Recorder is a Decrypter that records what it is handed: a copy taken at call time and the slice itself
@@ -32,67 +35,137 @@ func c11Other(n int) string {
 	return eval.VerifEncodeCiphertext(bytes.Repeat([]byte{0xA5}, n))
 }
 
-// c11Paths feeds repr, as the ciphertext of a secret, to the two public entry points that unwrap envelopes
-// (DecryptSecrets over a document; the evaluator's fn::secret) with a recording decrypter.  Each must hand the decrypter
-// exactly the payload decodeCiphertext returns - and nothing at all when decodeCiphertext rejects repr.
-func c11Paths(repr string, ok bool, want []byte) (string, string) {
-	for _, b := range []byte(repr) {
-		if b < 0x20 || b >= 0x7f {
-			return "skip", "skip"
+// c11ErrKind classifies an error of decodeCiphertext (possibly wrapped).
+func c11ErrKind(err error) string {
+	var b64 base64.CorruptInputError
+	switch {
+	case errors.As(err, &b64):
+		return "base64"
+	case errors.Is(err, io.EOF):
+		return "short"
+	case strings.HasSuffix(err.Error(), "invalid header"):
+		return "header"
+	case strings.HasSuffix(err.Error(), "invalid checksum"):
+		return "checksum"
+	case strings.HasSuffix(err.Error(), "unsupported version"):
+		return "version"
+	}
+	return "other"
+}
+
+// c11Quote renders a text as a YAML double-quoted scalar: control bytes through \xNN escapes (a YAML document cannot
+// contain them literally), everything else as it is.  A text that is not valid UTF-8 cannot be the value of a YAML
+// scalar at all: ok = false (the case is counted as skipped).
+func c11Quote(repr string) (string, bool) {
+	if !utf8.ValidString(repr) {
+		return "", false
+	}
+	var sb strings.Builder
+	sb.WriteByte('"')
+	for _, r := range repr {
+		switch {
+		case r == '"':
+			sb.WriteString(`\"`)
+		case r == '\\':
+			sb.WriteString(`\\`)
+		case r < 0x20 || r == 0x7f:
+			sb.WriteString(`\x`)
+			sb.WriteString(hex.EncodeToString([]byte{byte(r)}))
+		case r == 0x85 || r == 0xa0 || r == 0x2028 || r == 0x2029 || r == 0xfeff || (r >= 0x80 && r < 0xa0):
+			// line breaks / BOM / C1 controls of YAML: escaped as code points
+			sb.WriteString(`\u`)
+			sb.WriteString(hex.EncodeToString([]byte{byte(r >> 8), byte(r)}))
+		default:
+			sb.WriteRune(r)
 		}
 	}
-	q, _ := json.Marshal(repr)
-	// the same text three times (a decoder that remembers texts must remember their rejection too), then a valid one
-	doc := []byte("values:\n  s:\n    fn::secret:\n      ciphertext: " + string(q) + "\n  s2:\n    fn::secret:\n      ciphertext: " + string(q) + "\n  l:\n    - fn::secret:\n        ciphertext: " + string(q) + "\n  t:\n    fn::secret:\n      ciphertext: " + c11OtherQ + "\n")
-	judge := func(r *c11Recorder) string {
-		// the second secret (always valid) must arrive; the first only if accepted
-		var mine [][]byte
-		var kept [][]byte
-		for i, c := range r.copies {
-			if !bytes.Equal(c, c11OtherPayload) {
-				mine = append(mine, c)
-				kept = append(kept, r.kept[i])
-			}
+	sb.WriteByte('"')
+	return sb.String(), true
+}
+
+// c11Seen projects what a recording decrypter received: the number of payloads other than the marker secret's, and
+// whether every one of them equals want - at call time and when the slice is read again after the run.
+func c11Seen(r *c11Recorder, want []byte) (int, bool) {
+	n, same := 0, true
+	for i, c := range r.copies {
+		if bytes.Equal(c, c11OtherPayload) && !bytes.Equal(want, c11OtherPayload) {
+			continue
 		}
-		switch {
-		case !ok && len(mine) != 0:
-			return "rejected-envelope-reached-decrypter:" + hex.EncodeToString(mine[0])
-		case ok && len(mine) == 0 && !bytes.Equal(want, c11OtherPayload):
-			return "accepted-envelope-never-decrypted"
-		case ok && len(mine) != 0 && !bytes.Equal(mine[0], want):
-			return "decrypter-got-other-bytes:" + hex.EncodeToString(mine[0])
-		case ok && len(kept) != 0 && !bytes.Equal(kept[0], want):
-			return "payload-changed-after-the-call:" + hex.EncodeToString(kept[0])
+		n++
+		if !bytes.Equal(c, want) || !bytes.Equal(r.kept[i], want) {
+			same = false
 		}
+	}
+	return n, same
+}
+
+func c11Flag(b bool) string {
+	if b {
 		return "same"
 	}
-	r1 := &c11Recorder{}
-	_, _ = eval.DecryptSecrets(context.Background(), "doc", doc, r1)
-	p1 := judge(r1)
-	if p1 == "same" {
-		// the same through a document in which the key is spelled with a YAML escape only (no literal "fn::secret" text)
-		doc2 := []byte("values:\n  s:\n    \"fn::\\u0073ecret\":\n      ciphertext: " + string(q) + "\n  t:\n    \"fn\\x3a:secret\":\n      ciphertext: " + c11OtherQ + "\n")
-		r1b := &c11Recorder{}
-		_, _ = eval.DecryptSecrets(context.Background(), "doc", doc2, r1b)
-		if ok && len(r1b.copies) == 0 {
-			p1 = "escaped-key-document-never-reached-the-decrypter"
-		} else if pb := judge(r1b); pb != "same" {
-			p1 = "escaped-key:" + pb
+	return "differs"
+}
+
+// c11Doc runs eval.DecryptSecrets over doc and projects: the class of the returned error ("none", "ic:<kind>" for an
+// error that wraps "invalid ciphertext: <decoder error>", "other"), how many payloads reached the decrypter and whether
+// they are the expected one.
+func c11Doc(doc []byte, want []byte) map[string]any {
+	r := &c11Recorder{}
+	_, err := eval.DecryptSecrets(context.Background(), "doc", doc, r)
+	n, same := c11Seen(r, want)
+	class := "none"
+	if err != nil {
+		class = "other"
+		if strings.Contains(err.Error(), "invalid ciphertext: ") {
+			class = "ic:" + c11ErrKind(err)
 		}
 	}
-	p2 := "skip"
-	env, diags, err := eval.LoadYAMLBytes("doc", doc)
-	if err == nil && !diags.HasErrors() {
-		r2 := &c11Recorder{}
-		ec, _ := esc.NewExecContext(map[string]esc.Value{})
-		_, _ = eval.EvalEnvironment(context.Background(), "doc", env, r2, nil, nil, ec)
-		p2 = judge(r2)
+	return map[string]any{"err": class, "n": n, "same": c11Flag(same), "calls": len(r.copies)}
+}
+
+// c11Paths feeds repr, as the ciphertext of a secret, to the public entry points that unwrap envelopes
+// (DecryptSecrets over a document - also one whose key is spelled with YAML escapes only; the evaluator's fn::secret)
+// with a recording decrypter and reports what each did; the judgement (a rejected text MUST produce the "invalid
+// ciphertext" error / exactly one diagnostic per occurrence and reach the decrypter never; an accepted one must reach
+// it once per occurrence with exactly the decoder's payload) is made by Corr/C11.v.
+func c11Paths(repr string, want []byte) map[string]any {
+	q, ok := c11Quote(repr)
+	if !ok {
+		return map[string]any{"skip": "not-utf8"}
 	}
-	return p1, p2
+	// the same text three times (a decoder that remembers texts must remember their rejection too), then a valid one
+	doc := []byte("values:\n  s:\n    fn::secret:\n      ciphertext: " + q + "\n  s2:\n    fn::secret:\n      ciphertext: " + q + "\n  l:\n    - fn::secret:\n        ciphertext: " + q + "\n  t:\n    fn::secret:\n      ciphertext: " + c11OtherQ + "\n")
+	out := map[string]any{"occ": 3}
+	out["doc"] = c11Doc(doc, want)
+	// a document in which the key is spelled with a YAML escape only (no literal "fn::secret" text), one occurrence
+	doc2 := []byte("values:\n  s:\n    \"fn::\\u0073ecret\":\n      ciphertext: " + q + "\n  t:\n    \"fn\\x3a:secret\":\n      ciphertext: " + c11OtherQ + "\n")
+	out["doc2"] = c11Doc(doc2, want)
+	env, diags, err := eval.LoadYAMLBytes("doc", doc)
+	if err != nil || diags.HasErrors() {
+		out["eval"] = map[string]any{"skip": "load"}
+		return out
+	}
+	r2 := &c11Recorder{}
+	ec, _ := esc.NewExecContext(map[string]esc.Value{})
+	_, ediags := eval.EvalEnvironment(context.Background(), "doc", env, r2, nil, nil, ec)
+	nd := 0
+	for _, d := range ediags {
+		if d.Severity == 1 { // hcl.DiagError
+			nd++
+		}
+	}
+	n, same := c11Seen(r2, want)
+	out["eval"] = map[string]any{"diags": nd, "n": n, "same": c11Flag(same)}
+	return out
 }
 
 var c11OtherPayload = bytes.Repeat([]byte{0xA5}, 7)
 var c11OtherQ = func() string { q, _ := json.Marshal(c11Other(7)); return string(q) }()
+
+// c11Chosen is an Encrypter whose output is chosen by the case.
+type c11Chosen struct{ out []byte }
+
+func (e c11Chosen) Encrypt(_ context.Context, _ []byte) ([]byte, error) { return e.out, nil }
 
 func init() { register("C11", c11) }
 
@@ -106,6 +179,36 @@ func c11(c map[string]any) map[string]any {
 		repr := eval.VerifEncodeCiphertext(ct)
 		d := c11(map[string]any{"op": "dec", "repr": hex.EncodeToString([]byte(repr))})
 		return map[string]any{"repr": hex.EncodeToString([]byte(repr)), "dec": d}
+	case "wrap":
+		// the wrap side through the PUBLIC API: EncryptSecrets with a chosen-output encrypter over a document with one
+		// plaintext secret; the envelope text is read back from the rewritten document with an independent YAML reader
+		ct, _ := hex.DecodeString(str(c, "ct"))
+		src := []byte("values:\n  s:\n    fn::secret: plain-text\n")
+		enc, err := eval.EncryptSecrets(context.Background(), "doc", src, c11Chosen{ct})
+		if err != nil {
+			return map[string]any{"res": "encrypt-error"}
+		}
+		var y struct {
+			Values struct {
+				S map[string]map[string]string `yaml:"s"`
+			} `yaml:"values"`
+		}
+		if yaml.Unmarshal(enc, &y) != nil {
+			return map[string]any{"res": "encrypt-output-unreadable"}
+		}
+		repr, found := y.Values.S["fn::secret"]["ciphertext"]
+		if !found {
+			return map[string]any{"res": "encrypt-output-no-ciphertext"}
+		}
+		d := c11(map[string]any{"op": "dec", "repr": hex.EncodeToString([]byte(repr))})
+		// ... and the rewritten document itself through DecryptSecrets: the decrypter must get ct, once
+		r := &c11Recorder{}
+		_, derr := eval.DecryptSecrets(context.Background(), "doc", enc, r)
+		back := "same"
+		if derr != nil || len(r.copies) != 1 || !bytes.Equal(r.copies[0], ct) {
+			back = "differs"
+		}
+		return map[string]any{"repr": hex.EncodeToString([]byte(repr)), "dec": d, "back": back}
 	case "dec":
 		repr, _ := hex.DecodeString(str(c, "repr"))
 		out, err := eval.VerifDecodeCiphertext(string(repr))
@@ -116,26 +219,15 @@ func c11(c map[string]any) map[string]any {
 			_, _ = eval.VerifDecodeCiphertext(c11Other(len(out)))
 			_, _ = eval.VerifDecodeCiphertext(c11Other(len(out) + 300))
 		}
-		p1, p2 := c11Paths(string(repr), err == nil, first)
+		paths := c11Paths(string(repr), first)
 		if err == nil {
-			return map[string]any{"res": "ok", "ct": hex.EncodeToString(out), "first": hex.EncodeToString(first), "doc": p1, "eval": p2}
+			return map[string]any{"res": "ok", "ct": hex.EncodeToString(out), "first": hex.EncodeToString(first), "paths": paths}
 		}
-		c["_doc"], c["_eval"] = p1, p2
-		var b64 base64.CorruptInputError
-		kind := "other:" + err.Error()
-		switch {
-		case errors.As(err, &b64):
-			kind = "base64"
-		case err == io.EOF:
-			kind = "short"
-		case err.Error() == "invalid header":
-			kind = "header"
-		case err.Error() == "invalid checksum":
-			kind = "checksum"
-		case err.Error() == "unsupported version":
-			kind = "version"
+		kind := c11ErrKind(err)
+		if kind == "other" {
+			kind = "other:" + err.Error()
 		}
-		return map[string]any{"res": kind, "doc": c["_doc"], "eval": c["_eval"]}
+		return map[string]any{"res": kind, "paths": paths}
 	}
 	return map[string]any{"res": "badop"}
 }
